@@ -612,7 +612,6 @@ func c14Check(c statCase) (v vcase.Verdict) {
 	return
 }
 
-
 // c14StructLevel replays main's loop against benchtab.Builder and compares
 // every cell's sample values with the expected multiset.
 func c14StructLevel(c statCase, paths []string, ex *expected) string {
